@@ -1,6 +1,8 @@
 import RjModel.Model.Shutdown
 import RjModel.Generated.Shutdown
 import RjModel.Generated.Skeletons
+import RjModel.Lemmas.RunLemmas
+import RjModel.Generated.RunSkel
 /-! # C09 — every run terminates, also when something breaks mid-transfer -/
 namespace Rj.C09
 open Rj Rj.Shut
@@ -75,5 +77,18 @@ theorem C09_sender_released_when_receiver_gone : Generated.channelFeatures.waitC
 example : (List.foldl (fun (s : Option SState) a => s.bind fun s => sstep true 2 s a) (some ⟨1, 3, false⟩)
             [.bossDrain, .bossDrain, .bossDrain, .doerSend, .bossDrain, .doerExit]) = some ⟨0, 0, true⟩ := by
   decide
+
+open Rj.Run in
+/-- **Every doer that was launched is shut down exactly once, on every path of `execute_spec`** (a failed second launch, a
+failing sync at any position, the normal end) - on the control skeleton extracted from the current source; so no path
+hands control back with a doer thread or a remote doer process still waiting for commands. -/
+theorem C09_every_launched_comms_shut_down_once (srcOk destOk : Bool) (outs : List Bool)
+    (hs : Generated.runSkelRecognised = true ∧ Generated.runSkel = RunSkel.ref) :
+    let r := executeSpec Generated.runSkel srcOk destOk outs
+    r.srcShutdowns = (if r.srcLaunched then 1 else 0) ∧ r.destShutdowns = (if r.destLaunched then 1 else 0) := by
+  rw [hs.2]; exact every_launched_comms_shut_down_once srcOk destOk outs
+
+open Rj.Run in
+theorem C09_run_skeleton_matches : Generated.runSkelRecognised = true ∧ Generated.runSkel = RunSkel.ref := by decide
 
 end Rj.C09
